@@ -112,7 +112,7 @@ class H(dbmc.Harness):
 
 def check(tier, seed, procs):
     depth = 4 if tier == 'quick' else 7
-    res = dbmc.bfs(H, (tier,), depth=depth, procs=procs, time_budget=80 if tier == 'quick' else 1500)
+    res = dbmc.bfs(H, (tier,), depth=depth, procs=procs, time_budget=80 if tier == 'quick' else 900)
     cov = bf.coverage(res, f'2 jobs (1000 / 250 mcpu), attempts a1,a2 on pool instance i1 (active) + p1 on job-private i2 (pending, may activate), depth {depth}')
     return {'coverage': cov, 'violations': res.violations, 'assumptions': bf.ASSUME,
             'vacuous': None if res.states > 100 else f'only {res.states} states'}
